@@ -72,6 +72,9 @@ class Worker:
         import logging
         import warnings
         warnings.simplefilter("ignore")
+        # host logging configuration: records go to a handler, not to logging.lastResort (= stderr); third-party
+        # warnings are filtered.  What is then on stderr during cli.main is what the CLI itself wrote.
+        logging.getLogger().addHandler(logging.NullHandler())
         from .repo import activate
         activate()
         import sharepoint2text
@@ -366,20 +369,16 @@ class Worker:
 
 
 def cli_out_event(stdout, stderr, rc):
+    """stdout class, number of lines the CLI wrote to stderr (logging / warnings are routed away by the harness, so
+    every line is the CLI's own: a diagnostic whose message contains newlines counts as that many lines)."""
     lines = stderr.splitlines()
-    diag = sum(1 for ln in lines if ln.startswith("sharepoint2text: "))
     if stdout == "":
         o = "empty"
     elif rc == 0 and stdout.endswith("\n"):
         o = "result"
     else:
         o = "partial"
-    # the diagnostic is the CLI's LAST word
-    if rc != 0 and diag == 1 and lines and not lines[-1].startswith("sharepoint2text: ") \
-            and not any(ln.startswith("sharepoint2text: ") for ln in lines[-1:]):
-        # a multi-line message: the diagnostic line is followed by its continuation lines -- still one diagnostic
-        pass
-    return {"a": "CliOut", "out": o, "diag": min(diag, 3), "exit": rc if isinstance(rc, int) and 0 <= rc < 9 else 9}
+    return {"a": "CliOut", "out": o, "diag": min(len(lines), 9), "exit": rc if isinstance(rc, int) and 0 <= rc < 9 else 9}
 
 
 def serve(wdir):
@@ -415,7 +414,10 @@ def serve(wdir):
 # ===================================================================================== cli subprocess
 def clisub(argv_json, events_file):
     """Run cli.main in THIS fresh process with the recorder on; events -> file; real stdout/stderr/exit."""
+    import logging
     import warnings
+    warnings.simplefilter("ignore")
+    logging.getLogger().addHandler(logging.NullHandler())
     from .repo import activate
     activate()
     from sharepoint2text import cli
